@@ -298,6 +298,14 @@ def run_job(job):
             acc.nontrivial += 1
             acc.check("map", {"data": s.hex(), "what": "Unicode lookalike of one character"}, chk_map)
         if job["idx"] == 2:
+            # otherwise valid strings under a human-readable part that is a FRAGMENT of the known ones joined together
+            from vf.classes import substrings_across
+            for hb in substrings_across([b"bc", b"tb", b"bcrt"]) + [b"bcbc", b"btc", b"ltc"]:
+                for v_, n_ in ((0, 20), (1, 32)):
+                    addr = B32.encode_raw(hb.decode(), [v_] + B32.convertbits(list(filler(seed, "c08-hrp", n_)), 8, 5), 1 if v_ == 0 else B32.BECH32M_CONST)
+                    acc.evaluations += 1
+                    acc.nontrivial += 1
+                    acc.check("map", {"data": addr.hex(), "what": f"valid checksum under the foreign prefix {hb!r}"}, chk_map)
             for hrp, v, n in (("bc", 0, 20), ("tb", 1, 32)):
                 for w, addr in list(bech32_self_referential(hrp, v, n, 1 if v == 0 else B32.BECH32M_CONST, filler(seed, f"c08-self{n}", 40)))[:8]:
                     acc.evaluations += 1
